@@ -322,7 +322,9 @@ def _work1(job: t.Tuple[t.Any, ...]) -> evid.Local:
         # every reachable state of the single-session search (vf/checks/sess.py) x every delivery of its alphabet:
         # receive must return or raise ProtocolError from EVERY state, not only from the three representatives
         role, kk = job[1], job[2]
-        res = SS.explore(role, kk, _X["known_all"], 0, parallel=False, prop="C05")
+        res = SS.explore(role, kk, _X["known_all"], 0, parallel=False, prop="C05", cap=6000)
+        if res.capped:
+            loc.add("states_family_search_cut_at_cap")
         loc.add("states", res.states)
         loc.add("transitions", res.transitions)
         for (p, k), e in res.viol.items():
@@ -381,6 +383,10 @@ def run(ctx: evid.Ctx) -> None:
     jobs.sort(key=lambda j: 0 if j[0] == "states" else 1)
     for loc in par.pmap(_work, jobs, 0):
         evid.absorb(ctx, loc)
+    if ctx.counters.get("states_family_search_cut_at_cap"):
+        ctx.exhaustive = False
+        ctx.note("INCOMPLETE", "the single-session state search behind the 'states' family did not close and was cut at 6000 states; every other family is complete")
+        print("INCOMPLETE: the 'states' family search stopped at the state cap; see evidence")
     ctx.counters["evaluations"] = ctx.counters.get("transitions", 0)
     ctx.counters["traces_validated_against_impl"] = ctx.counters.get("transitions", 0)
     ctx.note("base_messages", len(bases))
